@@ -78,12 +78,12 @@ pub fn run_burst(focus: &'static str, seed: u64, index: u64) -> CaseOut {
     let sut = Sut::new(sutcfg);
     let keys = rng.range(2, 6);
     let full_sends = Arc::new(AtomicU64::new(0));
-    let mut handles = Vec::new();
+    let mut crew: rt::Crew<(Vec<Sub>, u64)> = rt::Crew::new();
     for t in 0..threads {
         let cache = sut.cache.clone();
         let mut rng = rt::rng_for(seed, index, 200 + t as u64);
         let full_sends = full_sends.clone();
-        handles.push(thread::spawn(move || {
+        crew.spawn(move || {
             let me = t as u64 + 1;
             let mut subs: Vec<Sub> = Vec::new();
             let mut immediate = 0u64;
@@ -128,10 +128,14 @@ pub fn run_burst(focus: &'static str, seed: u64, index: u64) -> CaseOut {
                 }
             }
             (subs, immediate)
-        }));
+        });
     }
     let mut subs: Vec<Sub> = Vec::new();
-    for handle in handles { if let Ok((s, immediate)) = handle.join() { counts.add("writes_answered_on_the_spot", immediate); subs.extend(s); } }
+    match crew.join("the writers of a burst to finish") {
+        Ok(results) => for (s, immediate) in results { counts.add("writes_answered_on_the_spot", immediate); subs.extend(s); },
+        Err(Waited::Deadlock(description)) => fail(&mut findings, &["C18", "C11"], "C18/deadlock/burst-writers-stuck".into(), format!("writers never returned from their calls: {}", description), case.clone()),
+        Err(other) => findings.push(Finding { props: vec!["C11"], signature: "inconclusive/burst-writers".into(), detail: waited_name(&other), witness: J::Null, inconclusive: true }),
+    }
     sched().quiet();
     sched().quiet_mask.store(0, Ordering::SeqCst);
     let quiesced = sut.quiesce();
@@ -274,7 +278,7 @@ pub fn run_burst(focus: &'static str, seed: u64, index: u64) -> CaseOut {
     let nontrivial = subs.len() >= 10 && (threads == 1 || counts.get("cross_thread_ordered_pairs_checked") > 0);
     let sample = case.clone().with("first_executed", J::Arr(exec_order.iter().take(10).map(|u| J::Int(*u as i128)).collect()));
     let _ = panic_mark;
-    if let Err(waited) = sut.finish() { if findings.is_empty() { findings.push(Finding { props: vec!["C13"], signature: "inconclusive/finish".into(), detail: waited_name(&waited), witness: J::Null, inconclusive: true }); } }
+    if let Err(waited) = sut.finish_or_leak() { if findings.is_empty() { findings.push(Finding { props: vec!["C13"], signature: "inconclusive/finish".into(), detail: waited_name(&waited), witness: J::Null, inconclusive: true }); } }
     r.track_acked.store(true, Ordering::SeqCst);
     counts.inc("cases");
     CaseOut { findings, counts, signature, nontrivial, sample }
@@ -313,12 +317,12 @@ pub fn run_shutdown(focus: &'static str, seed: u64, index: u64) -> CaseOut {
     let marks = sut.marks;
     let shutdown_returned = Arc::new(AtomicU64::new(0)); // stamp at which the first shutdown() call returned
     let go = Arc::new(AtomicBool::new(false));
-    let mut handles = Vec::new();
+    let mut writer_crew: rt::Crew<(Client, Vec<(u64, String)>)> = rt::Crew::new();
     for t in 0..writers {
         let cache = sut.cache.clone();
         let mut rng = rt::rng_for(seed, index, 300 + t as u64);
         let (shutdown_returned, go) = (shutdown_returned.clone(), go.clone());
-        handles.push(thread::spawn(move || {
+        writer_crew.spawn(move || {
             let mut client = Client::new(t as u64 + 1);
             let mut post: Vec<(u64, String)> = Vec::new();
             while !go.load(Ordering::SeqCst) { thread::yield_now(); }
@@ -344,14 +348,14 @@ pub fn run_shutdown(focus: &'static str, seed: u64, index: u64) -> CaseOut {
             }
             client.settle_all(&marks);
             (client, post)
-        }));
+        });
     }
-    let mut shut_handles = Vec::new();
+    let mut shut_crew: rt::Crew<(u64, u64, Vec<String>)> = rt::Crew::new();
     for s in 0..shutters {
         let cache = sut.cache.clone();
         let (shutdown_returned, go) = (shutdown_returned.clone(), go.clone());
         let delay_us = rng.range(0, 3000);
-        shut_handles.push(thread::spawn(move || {
+        shut_crew.spawn(move || {
             while !go.load(Ordering::SeqCst) { thread::yield_now(); }
             thread::sleep(Duration::from_micros(delay_us + s as u64 * 50));
             let call = rt::stamp();
@@ -369,7 +373,7 @@ pub fn run_shutdown(focus: &'static str, seed: u64, index: u64) -> CaseOut {
             }
             cache.shutdown(); // idempotent
             (call, ret, bad)
-        }));
+        });
     }
     // directed: hold one writer between the flag check and the send until Shutdown is queued
     if directed { sched().arm(Site::SendBefore, 0); }
@@ -382,20 +386,25 @@ pub fn run_shutdown(focus: &'static str, seed: u64, index: u64) -> CaseOut {
         sched().release(Site::SendBefore);
     }
     let mut post_calls = 0;
-    for handle in shut_handles {
-        match handle.join() {
-            Ok((_, _, bad)) => { post_calls += 21; for b in bad { fail(&mut findings, &["C13"], format!("C13/api-works-after-shutdown/{}", b.split(' ').next().unwrap_or("?")), format!("after shutdown() returned on the same thread: {}", b), case.clone()); } }
-            Err(_) => fail(&mut findings, &["C13", "C17"], "C13/shutdown-panicked".into(), "shutdown() panicked".into(), case.clone()),
+    let expected_shutters = shut_crew.len();
+    match shut_crew.join("shutdown() to return") {
+        Ok(results) => {
+            if results.len() != expected_shutters { fail(&mut findings, &["C13", "C17"], "C13/shutdown-panicked".into(), "shutdown() panicked".into(), case.clone()); }
+            for (_, _, bad) in results { post_calls += 21; for b in bad { fail(&mut findings, &["C13"], format!("C13/api-works-after-shutdown/{}", b.split(' ').next().unwrap_or("?")), format!("after shutdown() returned on the same thread: {}", b), case.clone()); } }
         }
+        Err(Waited::Deadlock(description)) => fail(&mut findings, &["C13", "C18"], "C13/shutdown-never-returned".into(), format!("shutdown() did not return: every thread is blocked and nothing progresses: {}", description), case.clone()),
+        Err(other) => findings.push(Finding { props: vec!["C13"], signature: "inconclusive/shutdown-callers".into(), detail: waited_name(&other), witness: J::Null, inconclusive: true }),
     }
     counts.add("post_shutdown_api_calls_checked", post_calls);
     counts.add("concurrent_shutdown_calls", shutters as u64);
     let mut logs: Vec<OpRec> = Vec::new();
-    for handle in handles {
-        if let Ok((client, post)) = handle.join() {
+    match writer_crew.join("the writers around shutdown to finish") {
+        Ok(results) => for (client, post) in results {
             logs.extend(client.log);
             for (at, what) in post { fail(&mut findings, &["C13"], "C13/api-works-after-shutdown/other-thread".into(), format!("at stamp {} (after shutdown() had returned elsewhere): {}", at, what), case.clone()); }
-        }
+        },
+        Err(Waited::Deadlock(description)) => fail(&mut findings, &["C13", "C18"], "C13/writers-stuck-around-shutdown".into(), format!("writer threads never returned from their calls: {}", description), case.clone()),
+        Err(other) => findings.push(Finding { props: vec!["C13"], signature: "inconclusive/writers".into(), detail: waited_name(&other), witness: J::Null, inconclusive: true }),
     }
     sched().quiet();
     let witness = |recs: &[&OpRec]| case.clone().with("operations", J::Arr(recs.iter().map(|r| r.to_json()).collect()));
@@ -434,7 +443,7 @@ pub fn run_shutdown(focus: &'static str, seed: u64, index: u64) -> CaseOut {
     let signature = fnv_step(fnv_step(fnv_step(0x5D, counts.get("acknowledgements_of_commands_behind_shutdown")), counts.get("acknowledgements_of_commands_that_ran")), writers as u64 * 16 + shutters as u64);
     let nontrivial = counts.get("acknowledgements_of_commands_that_ran") > 0;
     let sample = case.clone().with("ran", J::Int(counts.get("acknowledgements_of_commands_that_ran") as i128)).with("behind_shutdown", J::Int(counts.get("acknowledgements_of_commands_behind_shutdown") as i128));
-    if let Err(waited) = sut.finish() {
+    if let Err(waited) = sut.finish_or_leak() {
         match waited {
             Waited::Deadlock(d) => fail(&mut findings, &["C13", "C18"], "C13/shutdown-stuck".into(), d, case.clone()),
             other => findings.push(Finding { props: vec!["C13"], signature: "inconclusive/finish".into(), detail: waited_name(&other), witness: J::Null, inconclusive: true }),
@@ -573,7 +582,7 @@ pub fn run_stall(focus: &'static str, seed: u64, index: u64) -> CaseOut {
     let signature = fnv_step(fnv_step(fnv_step(0x57, pool as u64 * 1000 + buf as u64), readers as u64 * 4 + variant), counts.get("access_dropped").min(1) << 4 | (sut.cfg.hash_mode == HashMode::Constant) as u64);
     let nontrivial = counts.get("quiescent_identity_checks") > 0 && counts.get("hits") > 0;
     let sample = case.clone().with("hits", J::Int(counts.get("hits") as i128)).with("added", J::Int(counts.get("access_added") as i128)).with("dropped", J::Int(counts.get("access_dropped") as i128));
-    if let Err(waited) = sut.finish() { if findings.is_empty() { findings.push(Finding { props: vec!["C15"], signature: "inconclusive/finish".into(), detail: waited_name(&waited), witness: J::Null, inconclusive: true }); } }
+    if let Err(waited) = sut.finish_or_leak() { if findings.is_empty() { findings.push(Finding { props: vec!["C15"], signature: "inconclusive/finish".into(), detail: waited_name(&waited), witness: J::Null, inconclusive: true }); } }
     counts.inc("cases");
     CaseOut { findings, counts, signature, nontrivial, sample }
 }
@@ -699,7 +708,7 @@ pub fn run_stress(focus: &'static str, seed: u64, index: u64, args: &Args) -> Ca
     let sample = case.clone().with("operations_completed", J::Int(total_ops as i128));
     r.check_weight_bounds.store(true, Ordering::SeqCst);
     if all_done.is_ok() {
-        if let Err(waited) = sut.finish() {
+        if let Err(waited) = sut.finish_or_leak() {
             match waited {
                 Waited::Deadlock(d) => fail(&mut findings, &["C13", "C18"], "C13/shutdown-stuck".into(), d, case.clone()),
                 other => findings.push(Finding { props: vec!["C18"], signature: "inconclusive/finish".into(), detail: waited_name(&other), witness: J::Null, inconclusive: true }),
@@ -804,7 +813,7 @@ pub fn run_estimate(focus: &'static str, seed: u64, index: u64) -> CaseOut {
     }
     let signature = fnv_step(fnv_step(fnv_step(0xE57, buf as u64 * 100 + readers as u64), reads_per_reader), storm as u64);
     let sample = case.clone().with("hits", J::Arr(hits_of.iter().map(|(k, h)| J::s(format!("key {}: {} hits", k, h))).collect()));
-    if let Err(waited) = sut.finish() { if findings.is_empty() { findings.push(Finding { props: vec!["C14"], signature: "inconclusive/finish".into(), detail: waited_name(&waited), witness: J::Null, inconclusive: true }); } }
+    if let Err(waited) = sut.finish_or_leak() { if findings.is_empty() { findings.push(Finding { props: vec!["C14"], signature: "inconclusive/finish".into(), detail: waited_name(&waited), witness: J::Null, inconclusive: true }); } }
     counts.inc("cases");
     let nontrivial = counts.get("end_to_end_estimates_checked") > 0;
     CaseOut { findings, counts, signature, nontrivial, sample }
